@@ -61,6 +61,11 @@ class MessageHandler(Virtual):
         if type(self.vfs) is not VFS_Real:
             return False
 
+        # The mailbox itself must exist: the mailbox module raises
+        # NoSuchMailboxError (not an IOError) for a missing file.
+        if not self.statresult:
+            return False
+
         if not self.selectorargs:
             return False
 
